@@ -17,6 +17,7 @@ DEBIT = ["send", "send_erc20", "multisend", "dao_fund", "gov_deposit", "convert_
 DELEG = ["delegate", "exec_delegate", "pc_delegate", "pc_delegate_contract", "create_validator", "exec_create_validator",
          "pc_create_validator", "pc_create_validator_contract", "convert_into_stake"]
 OTHER = ["undelegate", "clawback", "merge", "convert_into"]
+CONVERT = ["convert_back", "exec_convert_back"]   # MsgConvertVestingAccount, by the account and through authz
 REBOND = ["cancel_unbond", "exec_cancel_unbond", "pc_cancel_unbond"]   # driven, no floor: they cannot take coins from the account
 
 
@@ -100,8 +101,8 @@ def run(c):
     for cfg in cfgs:
         r = tlc_exhaustive(wd, "VestingLock.tla", cfg, workers=4, timeout=3000)
         c.add_tlc(cfg, r)
-    for cfg in ("VestingLock_defect_strict_deleg.cfg", "VestingLock_defect_strict_lock.cfg"):
-        r = tlc_exhaustive(wd, "VestingLock.tla", cfg, must="fail", workers=2)
+    for cfg in ("VestingLock_defect_strict_deleg.cfg", "VestingLock_defect_strict_lock.cfg", "VestingLock_defect_strict_convert.cfg"):
+        r = tlc_exhaustive(wd, "VestingLock.tla", cfg, must="fail", workers=1)
         c.add_tlc(cfg, r)
 
     # 2. spec -> code and code -> spec, in rounds (one trace file and one validating JVM per round)
@@ -135,7 +136,7 @@ def run(c):
     c.samples = samples
     c.extra["trace_lines"] = lines
     c.extra["transactions_validated"] = counts["tx"]
-    c.extra["by_path"] = {k: {"accepted": counts["ok:" + k], "refused": counts["refused:" + k]} for k in DEBIT + DELEG + OTHER + REBOND}
+    c.extra["by_path"] = {k: {"accepted": counts["ok:" + k], "refused": counts["refused:" + k]} for k in DEBIT + DELEG + OTHER + CONVERT + REBOND}
     c.extra["slash_blocks"] = counts["slash-blocks"]
     c.extra["scenarios"] = {"script": counts["scenarios:script"], "random": counts["scenarios:random"], "setup_incomplete": counts["setup-incomplete"]}
     c.extra["conformance_divergence_count"] = ndiv
@@ -159,7 +160,7 @@ def run(c):
     # They guard a PASS: a confirmed violation is reported even if a floor is missed (a change that
     # breaks the property may also break the set-up of some scenarios).
     floor_msgs = []
-    for k in DEBIT + DELEG:
+    for k in DEBIT + DELEG + CONVERT:
         if counts["ok:" + k] < 1 or counts["refused:" + k] < 1:
             floor_msgs.append("path %s accepted=%d refused=%d" % (k, counts["ok:" + k], counts["refused:" + k]))
     for k in OTHER:
